@@ -1193,7 +1193,10 @@ def big_oracle(prop, ctx, tr, prefix_results=None):
         v = c11(ctx, tr)
         res['violations'] += v['violations']
         res['probes'].update(v['probes'])
-    if prop == 'C03' and len(ctx.crit) == 1 and rm.valid(I, M, ctx.pc):
+    if ((prop == 'C03' and len(ctx.crit) == 1) or
+            (prop == 'C05' and ctx.stab and len(ctx.crit) >= 1 and
+             ctx.crit[0][0] in ('maxsize', 'minsize'))) and \
+            rm.valid(I, M, ctx.pc) and I.n1 <= 300:
         name, extra = ctx.crit[0]
         k0 = rm.key(I, rm.measures(I, M), name, extra)
         for N in _neighbours(I, M):
